@@ -347,6 +347,10 @@ class Check:
 
 def run_check(main):
     """Wrap a check's main(): machinery failures are exit 2 (inconclusive), never an alarm."""
+    # the cyclic collector repeatedly walks the (large, long-lived) program and result graphs: 3-4x of the run time.
+    # Collect rarely; reference counting still frees almost everything at once.
+    import gc
+    gc.set_threshold(400000, 50, 50)
     try:
         main()
     except SystemExit:
